@@ -533,3 +533,54 @@ fn del_to_delay_ms(del: u8) -> u32 {
         _ => region::constants::RECEIVE_DELAY1,
     }
 }
+
+#[cfg(feature = "verif-hooks")]
+pub use session::verif_next_fcnt_down;
+
+/// Read-only projection of the MAC state for external verification harnesses.
+#[cfg(feature = "verif-hooks")]
+#[derive(Debug, Clone, PartialEq)]
+pub struct VerifSnapshot {
+    /// 0 = unjoined, 1 = join in progress, 2 = joined
+    pub state: u8,
+    pub dev_nonce: Option<u16>,
+    pub data_rate: u8,
+    pub rx1_delay: u32,
+    pub join_accept_delay1: u32,
+    pub join_accept_delay2: u32,
+    pub tx_power: Option<u8>,
+    pub rx1_dr_offset: u8,
+    pub rx2_data_rate: Option<u8>,
+    pub rx2_frequency: Option<u32>,
+    pub adr_enabled: bool,
+    pub max_power: u8,
+    pub antenna_gain: i8,
+    pub plan: region::VerifPlan,
+}
+
+#[cfg(feature = "verif-hooks")]
+impl Mac {
+    pub(crate) fn verif_snapshot(&self) -> VerifSnapshot {
+        let (state, dev_nonce) = match &self.state {
+            State::Unjoined => (0, None),
+            State::Otaa(otaa) => (1, Some(otaa.verif_dev_nonce())),
+            State::Joined(_) => (2, None),
+        };
+        VerifSnapshot {
+            state,
+            dev_nonce,
+            data_rate: self.configuration.data_rate as u8,
+            rx1_delay: self.configuration.rx1_delay,
+            join_accept_delay1: self.configuration.join_accept_delay1,
+            join_accept_delay2: self.configuration.join_accept_delay2,
+            tx_power: self.configuration.tx_power,
+            rx1_dr_offset: self.configuration.rx1_dr_offset,
+            rx2_data_rate: self.configuration.rx2_data_rate.map(|d| d as u8),
+            rx2_frequency: self.configuration.rx2_frequency,
+            adr_enabled: self.configuration.adr_enabled,
+            max_power: self.board_eirp.max_power,
+            antenna_gain: self.board_eirp.antenna_gain,
+            plan: self.region.verif_plan(),
+        }
+    }
+}
